@@ -15,6 +15,7 @@ for P in "$@"; do
   VERIF_REPO="$S/wt" VERIF_EVIDENCE_DIR="$S/ev" VERIF_REPLAY_DIR="$S/rp" "$HERE/check" "$P" --tier "${VERIF_TIER:-quick}" > "$S/out.$P" 2>&1
   rc=$?
   echo "== $P exit $rc"
+  [ -n "$VERIF_RAW" ] && tail -${VERIF_RAW} "$S/out.$P"
   grep -E "^(VIOLATION|KNOWN-FINDING|UNDECIDED|CHECKER-ERROR|  obligation|C[0-9]+:)" "$S/out.$P" | cut -c1-260 | head -${VERIF_LINES:-12}
   [ $rc -ne 0 ] && rc_all=$rc
 done
